@@ -354,6 +354,31 @@ func c04Check(c *C04Case, r *core.Rec) {
 			}
 		}
 	}
+	// History: the same slices are tested, negated in place by the caller (mu0 too) and
+	// tested again: T changes sign, the one-sided p-values change places.
+	hc := &C04Case{Test: c.Test, X1: append([]float64{}, c.X1...), X2: append([]float64{}, c.X2...), Mu0: c.Mu0}
+	for _, alt := range c01Alts {
+		c04Call(hc, alt)
+	}
+	for i := range hc.X1 {
+		hc.X1[i] = -hc.X1[i]
+	}
+	for i := range hc.X2 {
+		hc.X2[i] = -hc.X2[i]
+	}
+	hc.Mu0 = -c.Mu0
+	for ai, alt := range c01Alts {
+		res, err := c04Call(hc, alt)
+		r.Trans(2)
+		if err != nil {
+			r.Fail("rewritten-error", "%s after negating the samples in place: %v", c.Test, err)
+			continue
+		}
+		mirror := got[2-ai]
+		if math.Abs(res.T+got[ai].T) > 2*e.tolT || math.Abs(res.P-mirror.P) > tolP || math.Abs(res.DoF-got[ai].DoF) > 2*e.tolDof {
+			r.Fail("rewritten-in-place", "%s x1=%v x2=%v alt=%v: after negating the samples in place (T,DoF,P)=(%v,%v,%v); before (T,DoF)=(%v,%v), mirrored P=%v", c.Test, trunc(c.X1), trunc(c.X2), alt, res.T, res.DoF, res.P, got[ai].T, got[ai].DoF, mirror.P)
+		}
+	}
 }
 
 func mapF(x []float64, f func(float64) float64) []float64 {
